@@ -178,6 +178,38 @@ claim(
     "DESIGN.md §2 C14",
 )
 
+claim(
+    "C06",
+    "constant folding of the JSON type tables; path enumeration with guard facts of the required/Optional "
+    "logic; local type inference of the top-level schema literal; separator constant agreement",
+    "Decides necessary parts: typ2json_type (a comprehension inverse, folded) maps every JSON-representable "
+    "domain type to one of the seven JSON-Schema type names and json_type2typ maps it back; on every one of "
+    "the paths of param2json_schema_property a property is appended to `required` exactly once when typed "
+    "and not Optional and never when Optional; the top-level literal has $schema = draft 2020-12 URI, type "
+    "object, properties dict, required list and a description that is a str on every path (never None); the "
+    "Literal<->pattern separator constant agrees between emitter and parser and members are sorted.",
+    "NOT decided: validation of arbitrary defaults against their property schema; that parsing the emitted "
+    "schema back yields the same interface (value level).",
+    "DESIGN.md §2 C06",
+)
+
+claim(
+    "C02",
+    "structural recognisers on resolved names and def-use chains; vocabulary extraction by syntactic role "
+    "(writer/reader agreement); truthiness-context lint on default values",
+    "Decides necessary parts that the suite's all-defaults / no-defaults mocks never distinguish: left "
+    "padding of defaults by len(args)-len(defaults) and a common pairing index in function.parse; common "
+    "source iterable and joint routing of args/defaults in function.emit; constants of the emitted argparse "
+    "call equal those the recognisers test; node classes built by param2ast are handled by the class parser; "
+    "the six interface-carrying add_argument keywords are written and read under the same names; the "
+    "reader's Optional decision depends only on what the writer encodes; no parameter default is tested by "
+    "truthiness (0 / False / '' are values).",
+    "NOT decided: equality of the re-parsed interface for all parameter lists; nothing about types, "
+    "descriptions or default values (value level). One symbol-wide exemption of the truthiness rule "
+    "(function.emit's return default is code text).",
+    "DESIGN.md §2 C02",
+)
+
 
 def main():
     """write MANIFEST.json"""
